@@ -60,11 +60,12 @@ Leaf(naming) ==
     [] naming = "ip_in_dns_san"       -> [cn |-> <<>>, dns |-> {Id}, ips |-> {}]      \* the address written as a dNSName
 Anchor(chain) == CASE chain \in {"direct", "inter", "inter_expired"} -> "R"
                    [] chain = "wrong_ca" -> "W"
+                   [] chain = "public_ca" -> "P"     \* a CA that is only in the public bundle (certifi)
                    [] OTHER -> "none"          \* inter_missing, self_signed, inter_not_ca: no path to any root
 TrustSet(trust) == CASE trust \in {"ca_file", "ca_dir"} -> {"R"}
                      [] trust = "file_other" -> {"W"}
                      [] trust = "file_and_dir" -> {"R", "W"}
-                     [] trust = "default" -> {}            \* certifi: none of the lab's roots
+                     [] trust = "default" -> {"P"}         \* net/tls.py: certifi's bundle iff neither file nor dir is set
 
 \* ---- OpenSSL's decision ------------------------------------------------------------------------------------------
 Trusted(r) == Anchor(r.chain) \in TrustSet(r.trust)
